@@ -294,7 +294,8 @@ public:
 
     int compare(StringView x) const noexcept
     {
-        const int cmp = std::strncmp(ptr_, x.ptr_, std::min(size_, x.size_));
+        const int cmp = std::char_traits<char>::compare(
+            ptr_, x.ptr_, std::min(size_, x.size_));
         return cmp != 0 ? cmp :
                           (size_ == x.size_ ? 0 :
                            size_ < x.size_  ? -1 :
